@@ -501,7 +501,7 @@ class Runner:
 
     def write_replay(self, kind: str, r: Optional[dict], lean: LeanReport, found: bool, extra: dict = None) -> str:
         d = OUT / "replays"
-        d.mkdir(exist_ok=True)
+        d.mkdir(parents=True, exist_ok=True)
         self.replay_n += 1
         path = d / f"{self.p.id}-{self.seed}-{self.tier}-{self.replay_n}.json"
         body = {
@@ -702,7 +702,7 @@ class Runner:
             "violations": 1 if exit_code == 1 else 0,
         }
         ev = OUT / "evidence"
-        ev.mkdir(exist_ok=True)
+        ev.mkdir(parents=True, exist_ok=True)
         (ev / f"{p.id}.json").write_text(json.dumps(evidence, indent=1, default=str))
         for l in out_lines:
             print(l)
@@ -762,4 +762,7 @@ def cli(prop: Prop, argv: list[str]) -> int:
         return 2
     except subprocess.TimeoutExpired as e:
         print(f"[{prop.id}] TIMEOUT: {e}", file=sys.stderr)
+        return 2
+    except Exception:   # a bug in the harness is an infrastructure failure, never a violation
+        print(f"[{prop.id}] HARNESS ERROR:\n{traceback.format_exc()}", file=sys.stderr)
         return 2
